@@ -128,6 +128,7 @@ func (m *Machine) asInt(v value, what string) int64 {
 // checkIndex makes sure 0 <= idx < n, forking a panic path when the index
 // can be out of range.
 func (fr *frame) checkIndex(idx *Term, signed bool, n int) {
+	fr.m.res.Implicit++
 	st := fr.m.st()
 	var ok *Term
 	i64 := idx
@@ -416,6 +417,7 @@ func allScalar(vs []value) bool {
 
 // store through a possibly symbolic pointer.
 func (fr *frame) store(T types.Type, addr value, v value) {
+	fr.m.res.Implicit++
 	switch a := addr.(type) {
 	case *value:
 		if a == nil {
@@ -436,6 +438,7 @@ func (fr *frame) store(T types.Type, addr value, v value) {
 }
 
 func (fr *frame) loadPtr(T types.Type, addr value) value {
+	fr.m.res.Implicit++
 	switch a := addr.(type) {
 	case *value:
 		if a == nil {
